@@ -182,7 +182,7 @@ def admission_scenarios(env):
         if bad:
             fails.append(dict(scenario='admission', args=sc, expected=dict(admitted_per_step=exp, first_wrong_step=bad[0]), observed=got))
     return dict(name='admission_scenarios', validates='the admission decision end to end on real networks (TLS + acknowledgement handshake + registration), which the lifted block contract cannot see',
-                cases=cases, failed=fails, ok=not fails, props=['C10'],
+                cases=cases, failed=fails, ok=not fails, props=['C10', 'C03'],
                 clause='Never -> never admitted; High/Allowed -> always admitted; others -> admitted iff no limit or established (in and out) < limit; explicit dials are never blocked; a rejected dialer sees its connect fail')
 
 
@@ -618,6 +618,19 @@ def hostile_streams(env):
                     fails.append(dict(scenario='hostile_streams', args=dict(args, only=[s['misbehaviour']]),
                                       expected=dict(same_connection_rpc_ok=True, other_peer_rpc_ok=True, note='a well-formed RPC sent right after the misbehaviour is answered within %d ms' % args['limit_ms']),
                                       observed=dict(first=s, rerun=st)))
+        ab = got.get('after_abrupt_close_with_requests_in_flight') or {}
+        if not fails and ab.get('connected') and (ab.get('server_closed') or not ab.get('honest_rpc_ok') or not ab.get('new_peer_can_connect')):
+            fails.append(dict(scenario='hostile_streams', args=args, expected=dict(server_closed=False, honest_rpc_ok=True, new_peer_can_connect=True,
+                              note='a peer that goes away abruptly with requests of its own in flight ends its own connection; the node stays up and keeps serving'), observed=ab))
+        for sc in ('abrupt_close', 'abrupt_close_mt'):
+            if fails:
+                break
+            g2 = _run(sc, {}, env, timeout=120)
+            for r in (g2.get('rounds') or [dict(how='?', server_closed=True)]) if not g2.get('panicked') else [dict(how='the scenario did not finish', server_closed=True, detail=g2)]:
+                if r.get('server_closed') or not r.get('honest_rpc_ok') or not r.get('new_peer_can_connect'):
+                    fails.append(dict(scenario=sc, args=dict(how=r.get('how'), runtime='current-thread' if sc == 'abrupt_close' else 'multi-thread'),
+                                      expected=dict(server_closed=False, honest_rpc_ok=True, new_peer_can_connect=True, note='a peer that goes away abruptly with requests of its own in flight ends its own connection; the node stays up and keeps serving'), observed=r))
+                    break
         if not fails and not (got['both_still_connected'] and got['final_rpc_ok'] and got['slow_rpc_ok']):
             fails.append(dict(scenario='hostile_streams', args=args, expected=dict(both_still_connected=True, final_rpc_ok=True, slow_rpc_ok=True), observed={k: got[k] for k in ('both_still_connected', 'final_rpc_ok', 'slow_rpc_ok')}))
     return dict(name='hostile_streams', validates='that %d kinds of stream-level misbehaviour of a connected peer (silent, truncated, garbage, huge length prefix, reset, stop, unidirectional stream, datagram, 30 abandoned streams, a slow handler in flight) leave well-formed RPCs on the same connection and from another peer served promptly'
@@ -695,6 +708,11 @@ def stolen_certificate(env):
         if c['connect_ok'] != want or c['listed'] != want or (want and c['attributed_first_byte'] != c['victim_first_byte']):
             fails.append(dict(scenario='stolen_certificate', args=dict(direction='outbound', dial_names_the_identity=c['dial_names_the_identity'], history=[x['who'] for x in outbound[:i + 1]]),
                               expected=dict(connect_ok=want, listed=want), observed=c))
+    for c in got.get('two_certificate_chain') or []:
+        # (a chain of two certificates may be refused outright; if it is accepted, the identity is the holder's)
+        if c['connect_ok'] and (not c['returned_the_holder'] or not c['lists_holder'] or c['lists_other']) or (not c['connect_ok'] and (c['lists_holder'] or c['lists_other'])):
+            fails.append(dict(scenario='stolen_certificate', args=dict(direction='outbound', listener_presents='[certificate of the key holder, certificate of somebody else]', dial_names_the_identity=c['dial_names_the_identity']),
+                              expected=dict(note='a successful dial returns, and lists, the identity whose key signed the handshake (the first certificate), never the other one'), observed=c))
     if not fails and (len(inbound) != 5 or len(outbound) != 8):
         raise Undecided('stolen_certificate scenario reported %d + %d steps' % (len(inbound), len(outbound)))
     return dict(name='stolen_certificate', validates='real handshakes (rustls checks the CertificateVerify message through the verifier anemo installs): 5 inbound and 8 outbound attempts under one certificate, by its holder and by parties signing with other keys, in one process',
